@@ -5,7 +5,7 @@ sys.path.insert(0, os.path.dirname(os.path.abspath(__file__)))
 import ajlib, props
 ok, out = ajlib.ensure_driver()
 print(out[-2000:] if not ok else "driver ok")
-mods = ["AJ.Props." + p for p in props.PROPS]
+mods = sorted({v["module"] for v in props.PROPS.values()})
 ok2, out2 = ajlib.lake_build(mods)
 print(out2[-2000:] if not ok2 else "proofs ok")
 cfgs = []
